@@ -5,34 +5,41 @@
 (*                                                                         *)
 (*   idx[c]  the per-class static index (XTL_IMPLEMENT_INDEXABLE_CLASS):    *)
 (*           MAX (= SIZE_MAX) until the class is first used in an insert,   *)
-(*           process-global, shared by every level of the table;            *)
-(*   next    m_next_index;                                                  *)
-(*   cbs     m_callbacks: vectors nested cfg.ar deep; a leaf cell is EmptyCell (an *)
-(*           empty std::function) or [h, sig] (the functor_dispatcher        *)
-(*           lambda that casts the arguments to sig and calls handler h);    *)
+(*           process-global: shared by every level of the table AND by     *)
+(*           every dispatcher object over the hierarchy;                    *)
+(*   next, next2    m_next_index of the first / second dispatcher object;   *)
+(*   cbs, cbs2      m_callbacks: vectors nested cfg.ar deep; a leaf cell is *)
+(*           EmptyCell (an empty std::function) or [h, sig] (the             *)
+(*           functor_dispatcher lambda that casts the arguments to sig and  *)
+(*           calls handler h);                                              *)
+(*   has2    the second object exists (it is an implicitly generated copy:  *)
+(*           member-wise copy of m_callbacks and m_next_index);             *)
 (*   ub      ghost: a vector was indexed out of range (undefined behaviour). *)
 (*                                                                         *)
 (* TLC checks that every step is the L1 step of the same call under the     *)
 (* abstraction AbsReg (the handler a tuple of classes reaches), for every   *)
-(* registration history up to MaxHist, plus the representation invariants.  *)
+(* history up to MaxHist, plus the representation invariants.               *)
 (* This is advisory for verdicts (those come from Dispatch.tla only).       *)
 (***************************************************************************)
 EXTENDS Naturals, Sequences, FiniteSets, TLC
 
 CONSTANTS Kinds, Arities, NXs, K,   \* executions the model checker starts (as in Dispatch)
-          MaxHist,                  \* bound on the registration history
+          MaxHist,                  \* bound on the history
           HasErase,                 \* whether basic_fast_dispatcher has an erase member (the current tree has none:
                                     \* checks/c17.py probes this at compile time and picks the configuration)
-          Mutation                  \* "none", or the name of a seeded transcription error (self-test of the refinement check)
+          Copies,                   \* whether the copy / move / swap / destroy calls on a second object are explored
+          Mutation                  \* "none", or the name of a seeded transcription error (self-test of the refinement check);
+                                    \* "no_freeze" drops the environment assumption FreshOK (two live objects, new class)
 
-VARIABLES cfg, idx, next, cbs, ub, what, hist, last, pre,
-          areg     \* ghost: the abstraction AbsReg of the current representation (kept so that TLC computes it once per step)
+VARIABLES cfg, idx, next, cbs, next2, cbs2, has2, ub, what, hist, last, pre,
+          areg, areg2     \* ghosts: the abstraction AbsReg of the current representations (kept so that TLC computes them once per step)
 
-ivars == <<cfg, idx, next, cbs, ub, what, hist, last, pre, areg>>
-repview == <<cfg, idx, next, cbs, ub, Len(hist)>>
+ivars == <<cfg, idx, next, cbs, next2, cbs2, has2, ub, what, hist, last, pre, areg, areg2>>
+repview == <<cfg, idx, next, cbs, next2, cbs2, has2, ub, Len(hist)>>
 
 MAX == 255
 ClsOf(o) == o \div 10
+Range(s) == {s[i] : i \in 1..Len(s)}
 Tuples(ar, k) == CASE ar = 1 -> {<<a>> : a \in 1..k}
                    [] ar = 2 -> {<<a, b>> : a, b \in 1..k}
                    [] ar = 3 -> {<<a, b, c>> : a, b, c \in 1..k}
@@ -91,93 +98,151 @@ ReachOf(cb, ix, t) == Lookup(cb, 0, [j \in 1..Len(t) |-> ix[t[j]]])
 Reach(t) == ReachOf(cbs, idx, t)
 AbsRegOf(cb, ix) == [t \in Tuples(cfg.ar, cfg.k) |-> LET r == ReachOf(cb, ix, t) IN IF r.k = "ok" THEN r.cell.h ELSE 0]
 AbsReg == AbsRegOf(cbs, idx)
+AbsReg2 == AbsRegOf(cbs2, idx)
+Assigned == {c \in 1..5 : idx[c] # MAX}
 
-A == INSTANCE Dispatch WITH reg <- areg, MaxCells <- 999, OpClasses <- {}, EmitMode <- "none"
+A == INSTANCE Dispatch WITH reg <- areg, reg2 <- areg2, seen <- Assigned \cap (1..cfg.k),
+                            MaxCells <- 999, OpClasses <- {}, EmitMode <- "none"
 
 ----------------------------------------------------------------------------
-Insert(t, h) ==
-    /\ t \in Tuples(cfg.ar, cfg.k)
-    /\ LET r == InsertImpl(cbs, 0, t, [h |-> h, sig |-> t], idx, next) IN
-        /\ cbs' = r.c /\ idx' = r.idx /\ next' = r.next /\ ub' = (ub \/ r.ub)
-        /\ areg' = AbsRegOf(r.c, r.idx)
-    /\ what' = ""
-    /\ hist' = Append(hist, [op |-> "I", t |-> t, h |-> h])
-    /\ pre' = [reg |-> areg]
-    /\ last' = [op |-> "Insert", a |-> [t |-> t, h |-> h], res |-> A!Void]
-    /\ cfg' = cfg
+CbsOf(d) == IF d = 1 THEN cbs ELSE cbs2
+NextOf(d) == IF d = 1 THEN next ELSE next2
+Live(d) == d = 1 \/ (d = 2 /\ has2)
+(* environment assumption (as in L1): while two objects are alive only classes that already have an index are registered *)
+FreshOK(t) == Mutation = "no_freeze" \/ ~has2 \/ \A i \in 1..Len(t) : idx[t[i]] # MAX
 
-Erase(t) ==
-    /\ HasErase
+Insert(d, t, h) ==
+    /\ Live(d)
     /\ t \in Tuples(cfg.ar, cfg.k)
-    /\ LET c2 == EraseImpl(cbs, 0, t) IN cbs' = c2 /\ areg' = AbsRegOf(c2, idx)
-    /\ UNCHANGED <<idx, next, ub, cfg>>
+    /\ FreshOK(t)
+    /\ LET r == InsertImpl(CbsOf(d), 0, t, [h |-> h, sig |-> t], idx, NextOf(d)) IN
+        /\ idx' = r.idx /\ ub' = (ub \/ r.ub)
+        /\ IF d = 1 THEN /\ cbs' = r.c /\ next' = r.next /\ UNCHANGED <<cbs2, next2>>
+                         /\ areg' = AbsRegOf(r.c, r.idx) /\ areg2' = AbsRegOf(cbs2, r.idx)
+                    ELSE /\ cbs2' = r.c /\ next2' = r.next /\ UNCHANGED <<cbs, next>>
+                         /\ areg2' = AbsRegOf(r.c, r.idx) /\ areg' = AbsRegOf(cbs, r.idx)
     /\ what' = ""
-    /\ hist' = Append(hist, [op |-> "E", t |-> t, h |-> 0])
-    /\ pre' = [reg |-> areg]
-    /\ last' = [op |-> "Erase", a |-> [t |-> t], res |-> A!Void]
+    /\ hist' = Append(hist, [op |-> "I", d |-> d, t |-> t, h |-> h, how |-> ""])
+    /\ pre' = [reg |-> areg, reg2 |-> areg2, has2 |-> has2]
+    /\ last' = [op |-> "Insert", a |-> [d |-> d, t |-> t, h |-> h], res |-> A!Void]
+    /\ UNCHANGED <<cfg, has2>>
+
+Erase(d, t) ==
+    /\ HasErase
+    /\ Live(d)
+    /\ t \in Tuples(cfg.ar, cfg.k)
+    /\ LET c2 == EraseImpl(CbsOf(d), 0, t) IN
+         IF d = 1 THEN cbs' = c2 /\ areg' = AbsRegOf(c2, idx) /\ UNCHANGED <<cbs2, areg2>>
+                  ELSE cbs2' = c2 /\ areg2' = AbsRegOf(c2, idx) /\ UNCHANGED <<cbs, areg>>
+    /\ UNCHANGED <<idx, next, next2, has2, ub, cfg>>
+    /\ what' = ""
+    /\ hist' = Append(hist, [op |-> "E", d |-> d, t |-> t, h |-> 0, how |-> ""])
+    /\ pre' = [reg |-> areg, reg2 |-> areg2, has2 |-> has2]
+    /\ last' = [op |-> "Erase", a |-> [d |-> d, t |-> t], res |-> A!Void]
 
 (* the functor_dispatcher lambda casts every argument to the registered type: a dynamic_cast to a
    type the object is not fails with bad_cast; a static_cast "succeeds" (undefined behaviour) *)
 IsA(c, d) == c = d \/ d \in A!Anc(c)
-Dispatch(os, xs) ==
+Dispatch(d, os, xs) ==
+    /\ Live(d)
     /\ Len(os) = cfg.ar /\ Len(xs) = cfg.nx
-    /\ LET r == Lookup(cbs, 0, [j \in 1..Len(os) |-> idx[ClsOf(os[j])]])
+    /\ LET r == Lookup(CbsOf(d), 0, [j \in 1..Len(os) |-> idx[ClsOf(os[j])]])
            castok == r.k = "ok" /\ \A j \in 1..Len(os) : IsA(ClsOf(os[j]), r.cell.sig[j])
        IN /\ what' = IF r.k = "ok" THEN (IF cfg.kind = "fast_dyn" /\ ~castok THEN "bad_cast" ELSE "") ELSE r.k
           /\ ub' = (ub \/ r.k = "ub" \/ (r.k = "ok" /\ cfg.kind = "fast_static" /\ ~castok))
-          /\ last' = [op |-> "Dispatch", a |-> [os |-> os, xs |-> xs],
+          /\ last' = [op |-> "Dispatch", a |-> [d |-> d, os |-> os, xs |-> xs],
                       res |-> IF r.k = "ok" /\ (castok \/ cfg.kind = "fast_static")
                                 THEN A!Handled(r.cell.h, r.cell.sig, os, xs, A!FunctorRet(r.cell.h, xs))
                                 ELSE A!Err("exception", 0, 0)]
-    /\ UNCHANGED <<idx, next, cbs, cfg, hist, areg>>
-    /\ pre' = [reg |-> areg]
+    /\ UNCHANGED <<idx, next, cbs, next2, cbs2, has2, cfg, hist, areg, areg2>>
+    /\ pre' = [reg |-> areg, reg2 |-> areg2, has2 |-> has2]
+
+(* implicitly generated copy / move operations: member-wise on m_callbacks and m_next_index; the class
+   indices are statics and are not touched *)
+Mut(op, a, c1, n1, c2, n2, h2, e) ==
+    /\ cbs' = c1 /\ next' = n1 /\ cbs2' = c2 /\ next2' = n2 /\ has2' = h2
+    /\ areg' = AbsRegOf(c1, idx) /\ areg2' = AbsRegOf(c2, idx)
+    /\ UNCHANGED <<idx, ub, cfg>>
+    /\ what' = ""
+    /\ hist' = Append(hist, e)
+    /\ pre' = [reg |-> areg, reg2 |-> areg2, has2 |-> has2]
+    /\ last' = [op |-> op, a |-> a, res |-> A!Void]
+Clone(how) ==
+    /\ Copies
+    /\ how \in A!CloneHows
+    /\ how = "assign" => has2
+    /\ Mut("Clone", [how |-> how], cbs, next, cbs, next, TRUE, [op |-> "C", d |-> 2, t |-> <<>>, h |-> 0, how |-> how])
+Take(how) ==
+    /\ Copies
+    /\ how \in A!TakeHows
+    /\ how # "self" => has2
+    /\ LET e == [op |-> "T", d |-> 1, t |-> <<>>, h |-> 0, how |-> how] IN
+       CASE how = "self" -> Mut("Take", [how |-> how], cbs, next, cbs2, next2, has2, e)
+         [] how = "swap" -> Mut("Take", [how |-> how], cbs2, next2, cbs, next, has2, e)
+         [] how \in {"move", "movector"} -> Mut("Take", [how |-> how], cbs2, next2, <<>>, 0, FALSE, e)
+         [] OTHER -> Mut("Take", [how |-> how], cbs2, next2, cbs2, next2, has2, e)
+Drop2 ==
+    /\ Copies
+    /\ has2
+    /\ Mut("Drop2", A!NoArg, cbs, next, <<>>, 0, FALSE, [op |-> "D", d |-> 2, t |-> <<>>, h |-> 0, how |-> ""])
 
 Init ==
-    /\ cfg \in [kind : Kinds, ar : Arities, nx : NXs, k : {K}]
+    /\ cfg \in [kind : Kinds, ar : Arities, nx : NXs, k : {K}, fl : {"exc"}]
     /\ idx = [c \in 1..5 |-> MAX]
-    /\ next = 0
-    /\ cbs = <<>>
+    /\ next = 0 /\ next2 = 0
+    /\ cbs = <<>> /\ cbs2 = <<>>
+    /\ has2 = FALSE
     /\ ub = FALSE
     /\ what = ""
     /\ hist = <<>>
     /\ last = [op |-> "Init", a |-> A!NoArg, res |-> A!Void]
     /\ areg = A!ZeroReg(cfg.ar, cfg.k)
-    /\ pre = [reg |-> areg]
+    /\ areg2 = A!ZeroReg(cfg.ar, cfg.k)
+    /\ pre = [reg |-> areg, reg2 |-> areg2, has2 |-> has2]
 
 StdXs == [i \in 1..cfg.nx |-> i]
+SlotsLive == {d \in 1..2 : Live(d)}
 Next ==
-    \/ \E t \in Tuples(cfg.ar, cfg.k) : Insert(t, Len(hist) + 1)
-    \/ \E t \in Tuples(cfg.ar, cfg.k) : Erase(t)
-    \/ \E t \in Tuples(cfg.ar, cfg.k) : Dispatch([j \in 1..cfg.ar |-> 10 * t[j]], StdXs)
+    \/ \E d \in SlotsLive, t \in Tuples(cfg.ar, cfg.k) : Insert(d, t, Len(hist) + 1)
+    \/ \E d \in SlotsLive, t \in Tuples(cfg.ar, cfg.k) : Erase(d, t)
+    \/ \E d \in SlotsLive, t \in Tuples(cfg.ar, cfg.k) : Dispatch(d, [j \in 1..cfg.ar |-> 10 * t[j]], StdXs)
+    \/ \E how \in A!CloneHows : Clone(how)
+    \/ \E how \in A!TakeHows : Take(how)
+    \/ Drop2
 
 Spec == Init /\ [][Next]_ivars
 Bound == Len(hist) <= MaxHist
 
 ----------------------------------------------------------------------------
 (* what TLC checks *)
-RECURSIVE Shape(_, _)
-Shape(c, d) == /\ Len(c) <= next
-               /\ d < cfg.ar - 1 => \A i \in 1..Len(c) : Shape(c[i], d + 1)
-Assigned == {c \in 1..5 : idx[c] # MAX}
+RECURSIVE Shape(_, _, _)
+Shape(c, d, n) == /\ Len(c) <= n
+                  /\ d < cfg.ar - 1 => \A i \in 1..Len(c) : Shape(c[i], d + 1, n)
 RepInv ==
     /\ ~ub                                                        \* no vector is ever indexed out of range
-    /\ \A c \in Assigned : idx[c] < next                          \* indices are below m_next_index ...
+    /\ \A c \in Assigned : idx[c] < next \/ (has2 /\ idx[c] < next2)   \* indices are below m_next_index ...
     /\ \A c, d \in Assigned : c # d => idx[c] # idx[d]            \* ... and distinct per class
     /\ Cardinality(Assigned) = next
-    /\ Shape(cbs, 0)
+    /\ has2 => next2 = next                                       \* both objects agree about the next free index
+    /\ Shape(cbs, 0, next) /\ Shape(cbs2, 0, next2)
+    /\ ~has2 => cbs2 = <<>> /\ next2 = 0
 
 (* an unregistered cell never reaches a handler, a registered one reaches exactly its own:
    the handler a tuple reaches is the one last inserted (and not erased) for that very tuple *)
 CellExact ==
-    /\ areg = AbsReg                                             \* the ghost is the abstraction
-    /\ \A t \in Tuples(cfg.ar, cfg.k) : LET r == Reach(t) IN
-          /\ areg[t] = A!LastAbout(hist, t)
-          /\ r.k = "ok" => r.cell.sig = t
-          /\ r.k # "ub"
+    /\ areg = AbsReg /\ areg2 = AbsReg2                           \* the ghosts are the abstraction
+    /\ A!TablesAreHistory                                         \* ... and the abstraction is what the history says
+    /\ \A t \in Tuples(cfg.ar, cfg.k) :
+          /\ A!NoCopies(hist) => areg[t] = A!LastAbout(hist, t)
+          /\ LET r == Reach(t) IN (r.k = "ok" => r.cell.sig = t) /\ r.k # "ub"
+          /\ LET r == ReachOf(cbs2, idx, t) IN (r.k = "ok" => r.cell.sig = t) /\ r.k # "ub"
 
 StepRefines == LET a == last'.a  o == last'.op IN
-    \/ o = "Insert"   /\ A!Insert(a.t, a.h)
-    \/ o = "Erase"    /\ A!Erase(a.t)
-    \/ o = "Dispatch" /\ A!Dispatch(a.os, a.xs)
+    \/ o = "Insert"   /\ A!Insert(a.d, a.t, a.h)
+    \/ o = "Erase"    /\ A!Erase(a.d, a.t)
+    \/ o = "Dispatch" /\ A!Dispatch(a.d, a.os, a.xs)
+    \/ o = "Clone"    /\ A!Clone(a.how)
+    \/ o = "Take"     /\ A!Take(a.how)
+    \/ o = "Drop2"    /\ A!Drop2
 Refines == [][StepRefines]_ivars
 =============================================================================
